@@ -46,13 +46,17 @@ var c10Envs = [][]string{
 	{"SONIC_USE_OPTDEC=1", "SONIC_USE_FASTMAP=1", "GOGC=1"},
 }
 
-var c10Actions = []string{"gc", "freeos", "alloc:2", "alloc:8", "grow:100", "grow:3000", "grow:40000", "stack", "callers", "panic", "yield", "gc"}
+var c10Actions = []string{"gc", "freeos", "alloc:2", "alloc:8", "grow:100", "grow:3000", "grow:40000", "stack", "callers", "panic", "yield", "gc", "churn", "churn"}
 
 func drawC10(t *rapid.T) Case {
 	c := &C10Case{}
 	n := rapid.IntRange(1, 3).Draw(t, "nactions")
 	for i := 0; i < n; i++ {
 		c.Plan = append(c.Plan, c10Actions[rapid.IntRange(0, len(c10Actions)-1).Draw(t, "action")])
+	}
+	if rapid.IntRange(0, 3).Draw(t, "collectthenreuse") == 0 {
+		// the classic use-after-free detector: collect, then refill the freed small slots with junk
+		c.Plan = append([]string{"gc", "churn"}, c.Plan[:n-1]...)
 	}
 	for i, k := 0, rapid.IntRange(1, 4).Draw(t, "nseed"); i < k; i++ {
 		c.Seed = append(c.Seed, gen.GoString(t, false, false))
